@@ -32,8 +32,8 @@ def SC.target (S : SC) (t : Int) : Bool := entryHI S.code S.nvars t == some 1
 /-- the panic sites this layer covers -/
 def covered : Site → Bool
   | .stackPop | .scopesPop | .scopesData | .valuesIndex | .argsSlice | .xsIndex | .uncomparable
-  | .codesIndex | .badOp => true
-  | .pathsPop | .envIndex | .assertArray | .assertClosure | .assertPathValue | .assertInt => false
+  | .codesIndex | .badOp | .pathsPop | .assertPathValue | .assertInt => true
+  | .envIndex | .assertArray | .assertClosure => false
 
 /-! ## values -/
 
@@ -91,18 +91,22 @@ structure FView where
   pc : Int
   stk : List (Int × V)
   frames : List (Int × Scope)
+  paths : List (Int × V)
 
 structure AView where
   stk : List (Int × V)
   frames : List (Int × Scope)
+  paths : List (Int × V)
   forks : List FView
 
 def stkSaved (fs : List Fork) : List (Int × Int) := fs.map fun f => (f.stackindex, f.stacklimit)
 def scSaved (fs : List Fork) : List (Int × Int) := fs.map fun f => (f.scopeindex, f.scopelimit)
+def paSaved (fs : List Fork) : List (Int × Int) := fs.map fun f => (f.pathindex, f.pathlimit)
 
 structure View (e : Env) (A : AView) : Prop where
   stack : SView e.stack (stkSaved e.forks) A.stk (A.forks.map (·.stk))
   scopes : SView e.scopes (scSaved e.forks) A.frames (A.forks.map (·.frames))
+  paths : SView e.paths (paSaved e.forks) A.paths (A.forks.map (·.paths))
   pcs : e.forks.map (·.pc) = A.forks.map (·.pc)
 
 /-- facts about all blocks ever written -/
@@ -168,9 +172,11 @@ theorem Fr.refl (e : Env) : Fr e e := ⟨rfl, rfl, rfl, rfl, rfl⟩
 theorem Fr.trans {e e' e'' : Env} (h : Fr e e') (g : Fr e' e'') : Fr e e'' :=
   ⟨g.1.trans h.1, g.2.1.trans h.2.1, g.2.2.1.trans h.2.2.1, g.2.2.2.1.trans h.2.2.2.1, g.2.2.2.2.trans h.2.2.2.2⟩
 
-theorem View.fr {e e' : Env} {A : AView} (hV : View e A) (h : Fr e e') : View e' A := by
+theorem View.fr {e e' : Env} {A : AView} (hV : View e A) (h : Fr e e') (hp : e'.paths = e.paths := by rfl) :
+    View e' A := by
   obtain ⟨h1, h2, h3, _, _⟩ := h
-  exact ⟨by rw [h1, h3]; exact hV.stack, by rw [h2, h3]; exact hV.scopes, by rw [h3]; exact hV.pcs⟩
+  exact ⟨by rw [h1, h3]; exact hV.stack, by rw [h2, h3]; exact hV.scopes, by rw [hp, h3]; exact hV.paths,
+    by rw [h3]; exact hV.pcs⟩
 
 theorem GInv.fr {S : SC} {e e' : Env} (G : GInv S e) (h : Fr e e') : GInv S e' := by
   obtain ⟨h1, h2, h3, h4, h5⟩ := h
@@ -193,7 +199,7 @@ theorem push_eq (v : V) (e : Env) : push v e = .ok () { e with stack := e.stack.
 
 theorem View.push {e : Env} {A : AView} (hV : View e A) (v : V) :
     View { e with stack := e.stack.push v } { A with stk := ((e.stack.push v).index, v) :: A.stk } :=
-  ⟨hV.stack.push v, hV.scopes, hV.pcs⟩
+  ⟨hV.stack.push v, hV.scopes, hV.paths, hV.pcs⟩
 
 theorem GInv.push {S : SC} {e : Env} (G : GInv S e) {v : V} (hv : VOK S e v) :
     GInv S { e with stack := e.stack.push v } :=
@@ -209,7 +215,7 @@ theorem pop_spec {S : SC} {e : Env} {A : AView} (hV : View e A) (G : GInv S e) {
   have hs := hV.stack
   rw [hA] at hs
   obtain ⟨nx, hp, hv, hd, _⟩ := hs.pop_cons
-  refine ⟨nx, ?_, ⟨hv, hV.scopes, hV.pcs⟩, ⟨G.save, G.slots, G.outer, G.stk, G.vals, G.off⟩, ?_⟩
+  refine ⟨nx, ?_, ⟨hv, hV.scopes, hV.paths, hV.pcs⟩, ⟨G.save, G.slots, G.outer, G.stk, G.vals, G.off⟩, ?_⟩
   · unfold pop; rw [hp]
   · exact G.stk _ _ hd
 
@@ -240,12 +246,14 @@ def pushforkEnv (pc : Int) (e : Env) : Env :=
 theorem pushfork_eq (pc : Int) (e : Env) : pushfork pc e = .ok () (pushforkEnv pc e) := rfl
 
 theorem View.pushfork {e : Env} {A : AView} (hV : View e A) (pc : Int) :
-    View (pushforkEnv pc e) { A with forks := ⟨pc, A.stk, A.frames⟩ :: A.forks } := by
-  refine ⟨?_, ?_, ?_⟩
+    View (pushforkEnv pc e) { A with forks := ⟨pc, A.stk, A.frames, A.paths⟩ :: A.forks } := by
+  refine ⟨?_, ?_, ?_, ?_⟩
   · have := hV.stack.save
     simpa [pushforkEnv, stkSaved, forkOf] using this
   · have := hV.scopes.save
     simpa [pushforkEnv, scSaved, forkOf] using this
+  · have := hV.paths.save
+    simpa [pushforkEnv, paSaved, forkOf] using this
   · simp [pushforkEnv, forkOf, hV.pcs]
 
 theorem GInv.pushfork {S : SC} {e : Env} (G : GInv S e) (pc : Int) : GInv S (pushforkEnv pc e) := by
@@ -273,13 +281,14 @@ theorem pushfork_index (pc : Int) (e : Env) :
 /-- `popfork` -/
 theorem View.popfork {e : Env} {A : AView} {f : Fork} {rest : List Fork} {g : FView} {restA : List FView}
     (hV : View e A) (hf : e.forks = f :: rest) (hA : A.forks = g :: restA) :
-    View (popfork f rest e).1 ⟨g.stk, g.frames, restA⟩ ∧ g.pc = f.pc := by
-  obtain ⟨h1, h2, h3⟩ := hV
-  rw [hf, hA] at h1 h2 h3
-  simp only [stkSaved, scSaved, List.map_cons] at h1 h2 h3
-  refine ⟨⟨?_, ?_, ?_⟩, ?_⟩
+    View (popfork f rest e).1 ⟨g.stk, g.frames, g.paths, restA⟩ ∧ g.pc = f.pc := by
+  obtain ⟨h1, h2, h4, h3⟩ := hV
+  rw [hf, hA] at h1 h2 h3 h4
+  simp only [stkSaved, scSaved, paSaved, List.map_cons] at h1 h2 h3 h4
+  refine ⟨⟨?_, ?_, ?_, ?_⟩, ?_⟩
   · exact h1.restore
   · exact h2.restore
+  · exact h4.restore
   · simp only [popfork]; simp only [List.cons.injEq] at h3; exact h3.2
   · simp only [List.cons.injEq] at h3; exact h3.1.symm
 
@@ -303,7 +312,7 @@ theorem setValue_spec {S : SC} {e : Env} {A : AView} (hV : View e A) (G : GInv S
     View { e with values := e.values.setIfInBounds k.toNat v } A ∧
     GInv S { e with values := e.values.setIfInBounds k.toNat v } := by
   have hlt : k.toNat < e.values.size := by omega
-  refine ⟨?_, ⟨hV.stack, hV.scopes, hV.pcs⟩, ⟨G.save, ?_, G.outer, G.stk, ?_, G.off⟩⟩
+  refine ⟨?_, ⟨hV.stack, hV.scopes, hV.paths, hV.pcs⟩, ⟨G.save, ?_, G.outer, G.stk, ?_, G.off⟩⟩
   · unfold setValue
     simp [h0, hlt]
   · intro j b hb
